@@ -1762,6 +1762,25 @@ def eval_double_case(ctx, case):
                      f"{tag}{stage}: fuse_layers() of the object differs from fuse_layers() of a new DoublePepsTensor holding the same "
                      f"bra, ket, operator ({'set' if op_exp is not None else 'none'}) and charge swaps {swaps_exp}: rel err {err:.2e}", case=case, concrete=True)
             return
+        # views returned by value carry everything the object holds (operator, pending charge swaps, transposition):
+        # conjugating / copying the two-layer object and fusing afterwards == fusing first
+        for vname, view, refv in (("conj", lambda: T0.conj().fuse_layers(), lambda: fz.conj()),
+                                  ("copy", lambda: T0.copy().fuse_layers(), lambda: fz),
+                                  ("clone", lambda: T0.clone().fuse_layers(), lambda: fz)):
+            try:
+                gv, rv_ = view(), refv()
+                err = float((gv - rv_).norm()) / max(1.0, float(rv_.norm()))
+            except (CaseTimeout, MemoryError):
+                raise
+            except Exception as e:
+                ctx.fail("oracle", "c11:double:raises", f"{tag}{stage}: {vname}().fuse_layers() raised {type(e).__name__}: {e}", case=case, concrete=True)
+                return
+            ctx.count(f"double:life-view:{vname}")
+            if not err <= TOL_DOUBLE:
+                ctx.fail("oracle", f"c11:double:life-{vname}",
+                         f"{tag}{stage}: {vname}() of the object, fused, differs from the fused object{' conjugated' if vname == 'conj' else ''} "
+                         f"(operator {'set' if op_exp is not None else 'none'}, charge swaps {swaps_exp}): rel err {err:.2e}", case=case, concrete=True)
+                return
         if sym == "dense":
             err = relerr(fz.to_numpy(), dense_reference(op_exp))
             ctx.count("double:fuse_layers-dense-oracle")
